@@ -107,45 +107,45 @@ def run(ctx):
         # 3. interleavings at one bar height
         bars = [k for k, op in enumerate(hist) if op[0] == 'bar']
         if not bars: continue
-        k = rng.choice(bars)
-        end = next((x for x in bars if x > k), len(hist))
-        seg = hist[k + 1:end]
-        by = collections.OrderedDict()
-        for op in seg: by.setdefault(op[1], []).append(op)
-        if len(by) < 2: continue
-        ref_end = None
-        for perm in merges(list(by.values()), rng, lim):
-            if perm == seg: continue
-            alt = hist[:k + 1] + perm + hist[end:]
-            ca = H.new_comp(athlib); okall = True
-            for j, op in enumerate(alt):
-                if H.apply_op(athlib, ca, op) != 'ok':
-                    okall = False
-                    if j < end:
-                        fail('every interleaving that keeps each athlete\'s own order is accepted', 'call %d (%s) refused' % (j, H.fmt_ops([op])[0]), 'interleaving refused', alt[:j + 1])
-                    break
-                if j == end - 1:
-                    # end of the permuted height: cards, state, places must already agree with the original order
-                    if ref_end is None:
-                        cr = H.new_comp(athlib)
-                        for op2 in hist[:end]: H.apply_op(athlib, cr, op2)
-                        ref_end = obs(cr)
-                    if obs(ca) != ref_end:
-                        fail('same cards, state and places as the recorded order %r' % (ref_end,), repr(obs(ca)), 'interleaving changes the outcome', alt[:end])
-                        okall = False; break
-            stats['interleavings'] += 1
-            ctx.seen((tuple(hist[:k + 1]), tuple(perm)))
-            if okall and obs(ca) != obs(c):
-                fail('same final cards, state and places %r' % (obs(c),), repr(obs(ca)), 'interleaving changes the final outcome', alt)
-            # the model on the same interleaving (last reply only)
-            if stats['interleavings'] % 5 == 0:
-                lines.append('hj\tnew'); expect.append(None)
-                cm = H.new_comp(athlib)
-                for op in alt[:-1]:
-                    lines.append(H.op_line(op)); expect.append(None); H.apply_op(athlib, cm, op)
-                out = H.apply_op(athlib, cm, alt[-1])
-                lines.append(H.op_line(alt[-1])); expect.append(out + '|' + H.snap(cm))
-        if i < 3: ctx.sample({'history': H.fmt_ops(hist), 'height_permuted': hist[k], 'athletes_at_height': len(by)})
+        for k in sorted({bars[-1], rng.choice(bars)}):          # the last height (where jump-offs are decided) and a seeded one
+            end = next((x for x in bars if x > k), len(hist))
+            seg = hist[k + 1:end]
+            by = collections.OrderedDict()
+            for op in seg: by.setdefault(op[1], []).append(op)
+            if len(by) < 2: continue
+            ref_end = None
+            for perm in merges(list(by.values()), rng, lim):
+                if perm == seg: continue
+                alt = hist[:k + 1] + perm + hist[end:]
+                ca = H.new_comp(athlib); okall = True
+                for j, op in enumerate(alt):
+                    if H.apply_op(athlib, ca, op) != 'ok':
+                        okall = False
+                        if j < end:
+                            fail('every interleaving that keeps each athlete\'s own order is accepted', 'call %d (%s) refused' % (j, H.fmt_ops([op])[0]), 'interleaving refused', alt[:j + 1])
+                        break
+                    if j == end - 1:
+                        # end of the permuted height: cards, state, places must already agree with the original order
+                        if ref_end is None:
+                            cr = H.new_comp(athlib)
+                            for op2 in hist[:end]: H.apply_op(athlib, cr, op2)
+                            ref_end = obs(cr)
+                        if obs(ca) != ref_end:
+                            fail('same cards, state and places as the recorded order %r' % (ref_end,), repr(obs(ca)), 'interleaving changes the outcome', alt[:end])
+                            okall = False; break
+                stats['interleavings'] += 1
+                ctx.seen((tuple(hist[:k + 1]), tuple(perm)))
+                if okall and obs(ca) != obs(c):
+                    fail('same final cards, state and places %r' % (obs(c),), repr(obs(ca)), 'interleaving changes the final outcome', alt)
+                # the model on the same interleaving (last reply only)
+                if stats['interleavings'] % 5 == 0:
+                    lines.append('hj\tnew'); expect.append(None)
+                    cm = H.new_comp(athlib)
+                    for op in alt[:-1]:
+                        lines.append(H.op_line(op)); expect.append(None); H.apply_op(athlib, cm, op)
+                    out = H.apply_op(athlib, cm, alt[-1])
+                    lines.append(H.op_line(alt[-1])); expect.append(out + '|' + H.snap(cm))
+            if i < 3: ctx.sample({'history': H.fmt_ops(hist), 'height_permuted': hist[k], 'athletes_at_height': len(by)})
     got = vlib.driver(lines)
     nd = 0
     for e, g in zip(expect, got):
